@@ -29,7 +29,7 @@ import shutil
 import sys
 import traceback
 
-from engines.common import REPO, Acc, HarnessError, dec, fresh_dir, git, pmap, rmtree, rp, scratch_root, split
+from engines.common import REPO, Acc, HarnessError, dec, fresh_dir, git, pmap, preload_rust, rmtree, rp, scratch_root, split
 from engines.refmodels import gittree, indexfile
 from engines.refmodels import worktree as wm
 
@@ -1059,8 +1059,6 @@ def trees_phase1(max_entries, kinds3=None):
         for names in itertools.combinations(NAMES, n):
             ks = KINDS1 if (n < 3 or kinds3 is None) else kinds3
             for kinds in itertools.product(ks, repeat=n):
-                if any(nm == b"a" and k == "La" for nm, k in zip(names, kinds)):
-                    continue  # a -> a would be a symlink loop (not part of the enumerated space)
                 out.append(tuple(zip(names, kinds)))
     return out
 
@@ -1116,7 +1114,9 @@ def work(task):
 
 def run(ctx):
     q = ctx.quick
+    built = preload_rust()  # tree parsing/sorting and tree diffing run in the extensions built from the working tree (before HOME moves)
     isolate()
+    ctx.acc.note("rust_extensions", sorted(k for k in built if not k.startswith("_build")))
     J = ctx.jobs * 6
     # (1)
     trees = trees_phase1(2 if q else 3, kinds3=None)
@@ -1180,7 +1180,7 @@ def run(ctx):
         "no global/system git configuration or ignore file (HOME, XDG_CONFIG_HOME in the scratch root, GIT_CONFIG_GLOBAL=/dev/null, GIT_CONFIG_NOSYSTEM=1); core.autocrlf unset; core.filemode=true; umask 022",
         "inputs (blobs, trees, commits, refs, HEAD, config) are written by the harness, not by dulwich",
         "C git runs with GIT_OPTIONAL_LOCKS=0 and a copy of the index, after dulwich's observations, so it cannot perturb a state",
-        "symlink self-loops and symlinked leading directories that resolve to same-named files are not enumerated",
+        "symlinked leading directories that resolve to same-named files are not enumerated (git and lstat disagree about them by design)",
         "operations are only issued when C git would accept them (path exists or is tracked); any exception from a dulwich operation on such a state is a violation",
     ]
 
@@ -1188,6 +1188,7 @@ def run(ctx):
 def replay(ctx, obj):
     """replay_generic, except that a recorded key K is also reproduced by K + ',name=<class>' (run() merges
     the name-specific variant into K when the failure is not name-specific)."""
+    preload_rust()
     isolate()
     key = obj.get("key")
     mod = sys.modules[__name__]
